@@ -197,3 +197,310 @@ def c09(tier):
 
 
 REGISTRY = {"C07": c07, "C08": c08, "C09": c09}
+
+
+# ------------------------------------------------------------------------------------------------
+# C10: power loss with FsyncSchedule::SyncEach
+
+PL_CFGS = [
+    {"backend": "fd", "mode": "strict", "pe": 1, "fsync": "sync_each"},
+    {"backend": "mmap", "mode": "strict", "pe": 1, "fsync": "sync_each"},
+    {"backend": "fd", "mode": "alo", "pe": 2, "fsync": "sync_each"},
+]
+
+
+class Disk:
+    """Power-loss disk model (the statement's): explicit syncs make file data and directory entries
+    durable; every unsynced write / create / rename independently may or may not survive."""
+
+    def __init__(self, o_sync):
+        self.o_sync = o_sync
+        self.files = {}        # file id -> {"durable": bytearray, "pending": [op,...]}
+        self.dir_durable = {}  # path -> file id
+        self.dir_now = {}      # path -> file id (volatile view)
+        self.dir_pending = []  # [("create", path, fid) | ("rename", frm, to, fid) | ("unlink", path)]
+        self.nfid = 0
+
+    def _new(self):
+        self.nfid += 1
+        self.files[self.nfid] = {"durable": bytearray(), "pending": []}
+        return self.nfid
+
+    def apply(self, e):
+        k, p = e["kind"], e["path"]
+        if k == "create":
+            fid = self._new()
+            self.dir_now[p] = fid
+            self.dir_pending.append(("create", p, fid))
+        elif k == "set_len":
+            fid = self.dir_now.get(p)
+            if fid:
+                self.files[fid]["pending"].append(("set_len", e["len"]))
+        elif k in ("write", "uring_write"):
+            fid = self.dir_now.get(p)
+            if fid is None:
+                return
+            data = bytes.fromhex(e["data"]) if e.get("has_data") else b"\0" * e["len"]
+            if self.o_sync:
+                # O_SYNC write: durable on return, together with everything needed to read it back
+                self._flush(fid)
+                self._write(self.files[fid]["durable"], e["off"], data)
+            else:
+                self.files[fid]["pending"].append(("write", e["off"], data))
+        elif k == "write_file":
+            fid = self.dir_now.get(p)
+            if fid is None:
+                fid = self._new()
+                self.dir_now[p] = fid
+                self.dir_pending.append(("create", p, fid))
+            self.files[fid]["pending"].append(("replace", bytes.fromhex(e["data"])))
+        elif k == "fsync":
+            fid = self.dir_now.get(p)
+            if fid:
+                self._flush(fid)
+        elif k == "dirsync":
+            d = p.rstrip("/")
+            keep = []
+            for op in self.dir_pending:
+                path = op[2] if op[0] == "rename" else op[1]
+                if os.path.dirname(path) == d:
+                    self._apply_dir(self.dir_durable, op)
+                else:
+                    keep.append(op)
+            self.dir_pending = keep
+        elif k == "rename":
+            fid = self.dir_now.pop(p, None)
+            if fid is not None:
+                self.dir_now[e["path2"]] = fid
+                self.dir_pending.append(("rename", p, e["path2"], fid))
+        elif k == "unlink":
+            self.dir_now.pop(p, None)
+            self.dir_pending.append(("unlink", p))
+
+    @staticmethod
+    def _write(buf, off, data):
+        if len(buf) < off + len(data):
+            buf.extend(b"\0" * (off + len(data) - len(buf)))
+        buf[off:off + len(data)] = data
+
+    def _flush(self, fid):
+        f = self.files[fid]
+        for op in f["pending"]:
+            self._apply_file(f["durable"], op)
+        f["pending"] = []
+
+    def _apply_file(self, buf, op):
+        if op[0] == "set_len":
+            if len(buf) < op[1]:
+                buf.extend(b"\0" * (op[1] - len(buf)))
+            else:
+                del buf[op[1]:]
+        elif op[0] == "write":
+            self._write(buf, op[1], op[2])
+        elif op[0] == "replace":
+            del buf[:]
+            buf.extend(op[1])
+
+    @staticmethod
+    def _apply_dir(d, op):
+        if op[0] == "create":
+            d[op[1]] = op[2]
+        elif op[0] == "rename":
+            d.pop(op[1], None)
+            d[op[2]] = op[3]
+        elif op[0] == "unlink":
+            d.pop(op[1], None)
+
+    def choices(self, rnd, limit=12):
+        """Admissible loss sets: (subset of pending dir ops, per file subset of pending writes)."""
+        nd = len(self.dir_pending)
+        masks = set([0, (1 << nd) - 1])
+        if nd <= 4:
+            masks = set(range(1 << nd))
+        else:
+            for k in range(nd + 1):
+                masks.add((1 << k) - 1)
+            for _ in range(6):
+                masks.add(rnd.getrandbits(nd))
+        out = []
+        for m in sorted(masks):
+            # file contents: none / all / random subsets of pending writes
+            out.append((m, "none"))
+            if any(f["pending"] for f in self.files.values()):
+                out.append((m, "all"))
+                out.append((m, "rand"))
+        rnd.shuffle(out)
+        return out[:limit]
+
+    def materialise(self, root_map, choice, rnd):
+        """Writes the surviving state; root_map maps recorded paths to paths in the new sandbox."""
+        mask, fmode = choice
+        d = dict(self.dir_durable)
+        created_lost = set()
+        for i, op in enumerate(self.dir_pending):
+            if (mask >> i) & 1:
+                if op[0] == "rename" and op[1] not in d and op[3] in created_lost:
+                    continue   # a rename survives only if the creation of its source does
+                self._apply_dir(d, op)
+            elif op[0] == "create":
+                created_lost.add(op[2])
+        for path, fid in d.items():
+            f = self.files[fid]
+            buf = bytearray(f["durable"])
+            for op in f["pending"]:
+                if fmode == "all" or (fmode == "rand" and rnd.random() < 0.5):
+                    self._apply_file(buf, op)
+            dst = root_map(path)
+            os.makedirs(os.path.dirname(dst), exist_ok=True)
+            with open(dst, "wb") as fh:
+                fh.write(buf)
+
+
+def run_powerloss(behs, tier, tag):
+    binp = C.build_engine("tiny")
+    root = C.ensure_dir(os.path.join(C.BUILD, "runs", "%s-%d" % (tag, os.getpid())))
+    g = {"max_batch": 6}
+
+    def job(ix):
+        beh = behs[ix]
+        rnd = random.Random("pl/%d/%d" % (C.seed(), ix))
+        d = C.ensure_dir(os.path.join(root, "j%d" % ix))
+        spec = os.path.join(d, "beh.json")
+        open(spec, "w").write(json.dumps(beh))
+        dry_out, dry_dir, iolog = os.path.join(d, "dry.ndjson"), os.path.join(d, "dry"), os.path.join(d, "io.json")
+        rc, o = C.sh([binp, "crash", "child-run", "--beh", spec, "--dir", dry_dir, "--out", dry_out, "--at", "0",
+                      "--dump-io", iolog], timeout=300, env={"WALRUS_QUIET": "1"})
+        if not os.path.exists(iolog):
+            raise C.ToolError("power-loss dry run failed rc=%s %s" % (rc, o[-400:]))
+        io = json.load(open(iolog))
+        events, marks = io["events"], io["marks"]
+        evs = [json.loads(l) for l in open(dry_out) if l.strip()]
+        # acknowledged API events per completed operation
+        per_op, cur_ops, pending = [], [], []
+        for e in evs:
+            if e.get("ev") == "note" and e.get("what") == "opstart":
+                pending = []
+            elif e.get("ev") == "note" and e.get("what") == "opdone":
+                per_op.append(pending)
+                pending = []
+            elif e.get("ev") != "note":
+                pending.append(e)
+        # per_op[0] = open; per_op[k] = k-th operation
+        o_sync = beh["cfg"]["backend"] == "fd"
+        groups = {}
+        nops = len(beh["ops"])
+        points = []
+        for k in range(0, nops + 1):
+            points.append((marks[k], k, None))            # right after operation k returned (k=0: after open)
+        if tier == "thorough":
+            for k in range(1, nops + 1):                  # inside operation k
+                for pos in range(marks[k - 1] + 1, marks[k]):
+                    points.append((pos, k - 1, k))
+        for (pos, done, inflight_op) in points:
+            disk = Disk(o_sync)
+            for e in events[:pos]:
+                disk.apply(e)
+            for ci, choice in enumerate(disk.choices(rnd, 10 if tier == "thorough" else 5)):
+                gid = "%s@io%d_c%d" % (beh["id"], pos, ci)
+                sand = os.path.join(d, "s_%d_%d" % (pos, ci))
+                disk.materialise(lambda p: os.path.join(sand, os.path.relpath(p, dry_dir)), choice, rnd)
+                os.makedirs(os.path.join(sand, "d0"), exist_ok=True)
+                infl = "[]"
+                if inflight_op is not None:
+                    infl = json.dumps(_inflight(beh["ops"][inflight_op - 1], g["max_batch"]))
+                rout = os.path.join(d, "r.ndjson")
+                if os.path.exists(rout):
+                    os.remove(rout)
+                rc2, o2 = C.sh([binp, "crash", "child-recover", "--beh", spec, "--dir", sand, "--out", rout, "--inflight", infl],
+                               timeout=120, env={"WALRUS_QUIET": "1"})
+                revs = [json.loads(l) for l in open(rout) if l.strip()] if os.path.exists(rout) else []
+                if not revs:
+                    revs = [{"ev": "crash", "i": 0, "inflight": json.loads(infl), "res": "recover_child_exit_%s" % rc2}]
+                head = {"ev": "reset", "g": gid, "mode": beh["cfg"]["mode"], "pe": beh["cfg"].get("pe", 1), "mb": 6,
+                        "backend": beh["cfg"]["backend"], "geom": "tiny", "io_prefix": pos, "choice": [choice[0], choice[1]],
+                        "pending_dir_ops": [list(map(str, op[:3])) for op in disk.dir_pending]}
+                acked = [e for ops in per_op[1:done + 1] for e in ops]
+                groups[gid] = [head] + acked + revs
+                shutil.rmtree(sand, ignore_errors=True)
+        shutil.rmtree(d, ignore_errors=True)
+        return groups
+
+    allg = {}
+    for gr in C.parallel_map(job, list(range(len(behs))), workers=10):
+        allg.update(gr)
+    shutil.rmtree(root, ignore_errors=True)
+    return allg
+
+
+def _inflight(op, max_batch):
+    from .gen import PREFIX  # noqa: F401
+    kind = op.get("op")
+    t = op.get("t", "a")
+
+    def key(i, s):
+        return i if s >= 8 else -(s + 1)
+    if kind == "append" and "tlen" not in op:
+        return ["append", t, [[key(op["id"], op["size"]), op["size"]]]]
+    if kind == "batch" and "tlen" not in op:
+        return ["batch", t, [[key(e[0], e[1]), e[1]] for e in op["es"]]]
+    if kind == "read" and op.get("ckpt", True):
+        return ["read", t, 1]
+    if kind == "bread" and op.get("ckpt", True) and op.get("off", -1) < 0:
+        return ["read", t, max_batch]
+    return []
+
+
+def c10(tier):
+    ck = PE.EngineCheck("C10", tier)
+    mc = PE.contract_mc(tier)
+    r = random.Random("c10/%d" % C.seed())
+    n = 40 if tier == "thorough" else 9
+    behs = PE.load_corpus_files("C10")
+    for i in range(n):
+        cfg = dict(PL_CFGS[i % len(PL_CFGS)])
+        b = G.gen_behaviour(r, "crashw", "tiny", "pl%d" % i, cfg, length=r.randint(4, 9), safe_first=True)
+        b["cfg"]["proj"] = False
+        behs.append(b)
+    groups = run_powerloss(behs, tier, "c10")
+    verd, stats = E.validate(groups, tag="c10v", drop=("reclaim", "counts", "is_clean"))
+    groups = {g: [e for e in evs if e.get("ev") not in ("reclaim", "counts", "is_clean")] for g, evs in groups.items()}
+    byid = {b["id"]: b for b in behs}
+    failed = [g for g in verd if not verd[g]["ok"]]
+    for g in failed[:40]:
+        beh = byid.get(g.split("@")[0])
+        states = E.contract_state_at(groups[g], verd[g]["index"])
+        div = E.classify(groups[g], verd[g]["index"], states)
+        div["mode"] = beh["cfg"]["mode"]
+        div["backend"] = beh["cfg"]["backend"]
+        r0 = groups[g][0]
+        lost = [op for i, op in enumerate(r0.get("pending_dir_ops", [])) if not (r0["choice"][0] >> i) & 1]
+        div["lost_dir_ops"] = sorted(set(op[0] + ":" + ("index" if "read_offset_idx" in (op[2] if op[0] == "rename" else op[1]) else
+                                                       "marker" if "topic_clean" in (op[2] if op[0] == "rename" else op[1]) else "wal")
+                                         for op in lost))
+        b2 = dict(beh)
+        b2["id"] = g
+        ck.report(b2, groups[g], verd[g], div, states, extra={"io_prefix": r0.get("io_prefix"), "choice": r0.get("choice")})
+    ck.unattributed = max(0, len(failed) - 40)
+    if not groups:
+        raise C.ToolError("no power-loss state was reconstructed")
+    coverage = {
+        "states": mc["states"], "transitions": mc["transitions"],
+        "traces_validated_against_impl": len(groups),
+        "evaluations": len(groups), "distinct_nontrivial": sum(1 for g in groups.values() if g[0].get("pending_dir_ops")),
+        "samples": [{"group": g, "head": {k: v for k, v in groups[g][0].items() if k in ("io_prefix", "choice", "pending_dir_ops", "backend", "mode")}}
+                    for g in list(groups)[:3]],
+        "rule": "SyncEach workloads (fd with O_SYNC, mmap with msync per append; strict and alo) are run once with the cfg hook recording "
+                "every durable mutation with its bytes; for every I/O-trace prefix that ends at an operation boundary (thorough: every "
+                "prefix) and for admissible loss sets (all subsets of unsynced directory operations up to 4, sampled beyond; unsynced file "
+                "writes none/all/random) the directory is reconstructed as the statement's power-loss model leaves it and opened by a fresh "
+                "process that drains every topic; TLC validates (acknowledged events, Crash(inflight), post-recovery reads) against WalrusAPI; "
+                "non-trivial = reconstructed states with at least one unsynced directory operation",
+        "workloads": len(behs), "contract_model": mc, "trace_tlc_states": stats["states_distinct"], "rejected_traces": len(failed),
+    }
+    return ck.finish("fault_enumeration", coverage, PE.COMMON_ASSUMPTIONS + [
+        "power-loss model of the property statement: explicit syncs (fsync, msync, O_SYNC writes, directory fsync) are durable, every other "
+        "write/create/rename independently may or may not be; the reconstruction is done outside the engine from the recorded I/O trace",
+        "hook completeness (every durable mutation goes through a hook event) is assumed; events of background threads are taken in log order"])
+
+
+REGISTRY["C10"] = c10
